@@ -59,9 +59,11 @@ func (fr *Frame) unop(in *ssa.UnOp) Val {
 		return nv
 	case token.ARROW:
 		// channel receive: contents not modelled
+		fr.sitePseudo(in, "recv", in.Pos(), []Val{x}, nil, true)
 		v := vc.freshVal(fr.vname(in), in.Type())
 		fr.typed(v)
 		fr.blockingPoint("channel receive")
+		fr.sitePseudo(in, "recv", in.Pos(), []Val{x}, []Val{v}, false)
 		return v
 	}
 	vc.errorf("%s: unsupported unop %s", fr.fn, in.Op)
@@ -440,6 +442,17 @@ func (fr *Frame) selectInstr(in *ssa.Select) Val {
 	}
 	vc.assume(fr.curR, fmt.Sprintf("(and (>= %s %s) (< %s %d))", idx, lo, idx, len(in.States)))
 	vc.family("Chan.closed", "(Array Int Bool)")
+	if in.Blocking {
+		// while this goroutine is blocked others may close channels: the closed-state is
+		// re-read; channels already closed stay closed (stated for the channels of this select)
+		old := vc.lookup(fr.cur.heap, "Chan.closed")
+		nw := vc.fresh("Chan.closed", "(Array Int Bool)")
+		for _, st := range in.States {
+			ch := fr.get(st.Chan).T()
+			vc.assume(fr.curR, "(=> (select "+old+" "+ch+") (select "+nw+" "+ch+"))")
+		}
+		fr.cur.heap = vc.heapSet(fr.cur.heap, "Chan.closed", nw)
+	}
 	closed := vc.lookup(fr.cur.heap, "Chan.closed")
 	for i, st := range in.States {
 		ch := fr.get(st.Chan).T()
@@ -450,6 +463,10 @@ func (fr *Frame) selectInstr(in *ssa.Select) Val {
 			}
 			// receiving from a nil channel never proceeds
 			vc.assume(fr.curR, fmt.Sprintf("(=> (= %s %d) (not (= %s 0)))", idx, i, ch))
+			// ctx.Done(): ready exactly when the context is done (the channel is closed then)
+			if call, ok := st.Chan.(*ssa.Call); ok && call.Call.IsInvoke() && call.Call.Method.Name() == "Done" && vc.typeName(call.Call.Value.Type()) == "context.Context" {
+				vc.assume(fr.curR, fmt.Sprintf("(=> (= %s %d) (select %s %s))", idx, i, closed, ch))
+			}
 			// a channel that is only ever closed is ready exactly when it is closed
 			if u, ok := st.Chan.(*ssa.UnOp); ok {
 				if fa, ok := u.X.(*ssa.FieldAddr); ok {
@@ -462,6 +479,8 @@ func (fr *Frame) selectInstr(in *ssa.Select) Val {
 			}
 		}
 	}
+	fr.sitePseudo(in, "select", in.Pos(), nil, []Val{intVal(idx)}, true)
+	defer fr.sitePseudo(in, "select", in.Pos(), nil, []Val{intVal(idx)}, false)
 	out := Val{Typ: in.Type(), L: []string{idx, recvOk}}
 	tup := in.Type().(*types.Tuple)
 	for i := 2; i < tup.Len(); i++ {
